@@ -651,7 +651,7 @@ pub fn run_property<P: Prop>(p: &P, opts: &RunOpts) -> i32 {
     let evdir = Path::new(VERIF_DIR).join("evidence");
     let _ = std::fs::create_dir_all(&evdir);
     if let Err(e) = std::fs::write(
-        evdir.join(format!("{id}.json")),
+        evdir.join(format!("{id}{}.json", std::env::var("VERIF_EVIDENCE_SUFFIX").unwrap_or_default())),
         serde_json::to_string_pretty(&ev).unwrap(),
     ) {
         eprintln!("cannot write evidence: {e}");
